@@ -383,6 +383,96 @@ def ovfconst_rule(chk, db):
     return n
 
 
+def ovfpred_rule(chk, db):
+    """OVFPRED: the overflow predicate itself. With q = limit / base and r = |limit % base|, `value * base + digit` leaves the
+    type exactly when value is beyond q, or equals q and digit > r (beyond = greater for the unsigned accumulator, smaller
+    for the negative signed one). The checker's `operator()(value, digit)` is evaluated over the six orderings
+    (value <, =, > q) x (digit <=, > r) and compared with that table."""
+    n = 0
+    for rq, beyond in (("unsigned_overflow_checker", ">"), ("signed_overflow_checker", "<")):
+        fs = [f for f in db.funcs if f.get("record") == "etl::strings::detail::" + rq and f["n"] == "operator()" and f.get("body") is not None]
+        rec = db.record("etl::strings::detail::" + rq)
+        if not fs or rec is None:
+            chk.analysis_broken("OVFPRED: %s::operator() no longer exists" % rq)
+            continue
+        f = fs[0]
+        if len(f["params"]) != 2:
+            continue
+        vname, dname = f["params"][0]["n"], f["params"][1]["n"]
+        div = [fd["n"] for fd in rec["fields"] if "div" in fd["n"].lower()]
+        mod = [fd["n"] for fd in rec["fields"] if "mod" in fd["n"].lower()]
+        n += 1
+        construct = astx.sig(f)
+        chk.instance("OVFPRED")
+        ret = None
+        for st in (f["body"].get("s") or []):
+            if st.get("k") == "return":
+                ret = st.get("e")
+
+        class NM(Exception):
+            pass
+
+        def name(e):
+            e = astx.strip_casts(e)
+            if e is None:
+                return None
+            if e.get("k") in ("ref", "mem"):
+                return e.get("n")
+            return None
+
+        def truth(e, vo, do):
+            """vo in '<=>' (value vs q), do in ('le', 'gt') (digit vs r)"""
+            e = astx.strip_casts(e)
+            while e is not None and e.get("k") == "paren":
+                e = astx.strip_casts(e.get("e"))
+            if e is None:
+                raise NM()
+            if e.get("k") == "un" and e["op"] == "!":
+                return not truth(e["e"], vo, do)
+            if e.get("k") == "bin" and e["op"] in ("&&", "||"):
+                a, b = truth(e["l"], vo, do), truth(e["r"], vo, do)
+                return (a and b) if e["op"] == "&&" else (a or b)
+            if e.get("k") == "bin" and e["op"] in ("<", "<=", ">", ">=", "==", "!="):
+                l, r, op = name(e["l"]), name(e["r"]), e["op"]
+                flip = {"<": ">", "<=": ">=", ">": "<", ">=": "<=", "==": "==", "!=": "!="}
+                if l in div + mod:
+                    l, r, op = r, l, flip[op]
+                if l == vname and r in div:
+                    return {"<": vo == "<", "<=": vo in "<=", ">": vo == ">", ">=": vo in ">=", "==": vo == "=", "!=": vo != "="}[op]
+                if l == dname and r in mod:
+                    if op == ">":
+                        return do == "gt"
+                    if op == "<=":
+                        return do == "le"
+                    raise NM()      # digit == r is not distinguished from digit < r in this domain
+            raise NM()
+        bad = None
+        unknown = False
+        for vo in "<=>":
+            for do in ("le", "gt"):
+                try:
+                    got = truth(ret, vo, do)
+                except NM:
+                    unknown = True
+                    break
+                want = (vo == beyond) or (vo == "=" and do == "gt")
+                if got != want and bad is None:
+                    bad = (vo, do, got)
+            if unknown:
+                break
+        if unknown or ret is None:
+            chk.obligation("OVFPRED", construct, None)
+            chk.unknown_instance("OVFPRED", construct, "the predicate is not a combination of comparisons of (value, digit) with the two thresholds")
+            continue
+        chk.obligation("OVFPRED", construct, bad is None, evaluations=6)
+        if bad:
+            vo, do, got = bad
+            chk.violation("OVFPRED", construct, "overflow-predicate", "%s: with value %s limit / base and digit %s |limit %% base| the checker answers %s; "
+                          "`value * base + digit` %s" % (astx.loc(f), {"<": "<", "=": "==", ">": ">"}[vo], "<=" if do == "le" else ">",
+                                                         str(got).lower(), "fits" if got else "does not fit"), {"where": astx.loc(f)})
+    return n
+
+
 def sign_rule(chk, db):
     """SIGN: a formatting kernel that can emit '-' emits it on every path on which the value may be negative (std::to_chars
     writes the sign for every base). Facts come from the tests on the path: `v < 0` false or an unsigned type excuse it."""
@@ -537,7 +627,7 @@ def _split_targs(s):
     return out
 
 
-META_EXTRA = "NEG (no negation of a possibly-minimum signed value); SIGN ('-' on every path that may format a negative value); CASTSIGN (no cast of the caller's value to a fixed signed type); OVFCHK (accumulation only after an unconditional overflow test); OVFCONST (exact thresholds limit / base, |limit % base|); PARSE (front ends parse in the type they deliver, with the standard's white-space option); PARAM."
+META_EXTRA = "NEG (no negation of a possibly-minimum signed value); SIGN ('-' on every path that may format a negative value); CASTSIGN (no cast of the caller's value to a fixed signed type); OVFCHK (accumulation only after an unconditional overflow test); OVFCONST (exact thresholds limit / base, |limit % base|); OVFPRED (the overflow predicate evaluated over the six orderings of (value, digit) against the two thresholds); PARSE (front ends parse in the type they deliver, with the standard's white-space option); PARAM."
 META = (META[0] + " " + META_EXTRA, META[1])
 
 
@@ -554,6 +644,7 @@ def run(chk, tier):
     castsign_rule(chk, db)
     ovfchk_rule(chk, db)
     ovfconst_rule(chk, db)
+    ovfpred_rule(chk, db)
     parse_rule(chk, D.load("checks"))
     chk.assumptions += [
         "digits produced, values parsed, round trips and overflow detection at the type's limits are run-time values and are "
